@@ -1,25 +1,90 @@
 ID = 'C18'
 UNITS = {'time': dict(wrap='wrap.cc', new_block=64, per_harness={'h_ftime.c': {'new_block': 192}})}
-BOUNDS = ''
-STUBS = []
-OUTSIDE = []
-ASSUMPTIONS = []
+BOUNDS = ('format_duration: all 2^64 microsecond counts (split into the four magnitude classes, symbolic inside each) x precision {any negative, 0..6} '
+          'x both admissible shapes of the seconds text. format_time: all 2^64 timestamps, date text length 19 (and 20, 26 in the thorough tier). '
+          'usecs/timeval: all usecs < 2^63 and all normalised timevals below 2^63 us. format_size: all 2^64 sizes x include_bytes. '
+          'parse_size: every NUL-terminated string of length 0..3 (quick) / 0..5 (thorough) over all 256 byte values without a fractional part.')
+STUBS = [
+    'vasprintf (h_duration.c): contract stub. "%.*lf"(p, v): records p and v, returns an ARBITRARY string of the shape the format guarantees '
+    '(d+ for p == 0, else d+ "." d{p}; one integer digit if v < 9, two if v >= 10, either for 9 <= v < 10 because rounding may carry; digits arbitrary); '
+    '"%lu:%s" / "%lu:%02lu:%s" / "%lu:%02lu:%02lu:%s": records the integers and the %s argument, returns the token "I" followed by the %s argument; '
+    'any other format is an assertion failure. The decimal rendering itself (libc) is not modelled.',
+    'vasprintf (h_fsize.c): records format, integer and double argument of the format_size formats, returns the token "S"',
+    'gmtime_r (h_ftime.c): records the time_t, fills struct tm with arbitrary values; strftime: records buffer, size, format, tm; writes SLEN arbitrary '
+    'non-NUL bytes + NUL and returns SLEN (the real format needs 19 characters for years 1000..9999, at most 26 for any int year); snprintf: records '
+    'buffer, size, format, value; writes "." + 6 arbitrary digits (truncated to size-1) + NUL and returns 7. Calendar arithmetic and digits are libc\'s.',
+]
+OUTSIDE = [
+    'the rendered decimal digits of every field (libc printf) and therefore the textual claims "evaluates back to the input rounded at the printed precision" '
+    'and "format_size and parse_size agree to the printed precision": decided only up to the exact values/format strings handed to the formatter',
+    'calendar correctness of format_time (gmtime_r/strftime are libc): decided that gmtime_r gets t / 10^6, strftime gets that tm and "%Y-%m-%d %H:%M:%S", '
+    'and the microsecond field is t % 10^6 printed with ".%06u"',
+    'parse_size with digits after a decimal point (double accumulation of 0.1^k factors and the double -> size_t conversion); strings longer than 5 bytes',
+    'format_time_natural, now() (local time zone / clock)',
+    'format_duration precisions above 6 (int8_t allows up to 127; the property quantifies -1..6)',
+]
+ASSUMPTIONS = [
+    'libc printf renders "%.*lf" of a value in [0,60) with one integer digit when the value is below 9 and two when it is at least 10 (between 9 and 10 '
+    'both are admitted), followed by "." and exactly p digits when p > 0',
+    'x86-64 glibc: PRIu64 is "lu", struct tm starts with nine ints, time_t and suseconds_t are 64-bit',
+]
+
+PRECS_QUICK = (-1, 0, 1, 6)
+PRECS_ALL = (-1, 0, 1, 2, 3, 4, 5, 6)
+MAGN = {0: '< 1 min', 1: '1 min .. 1 h', 2: '1 h .. 1 day', 3: '>= 1 day'}
+
 
 def queries(tier):
+    thorough = tier != 'quick'
     qs = []
+
     def q(name, harness, defs, unwind, timeout=300, mem_gb=6, desc='', bounds='', **kw):
         d = dict(name=name, unit='time', harness=harness, defs=defs, unwind=unwind, timeout=timeout, mem_gb=mem_gb, desc=desc, bounds=bounds)
         d.update(kw)
         qs.append(d)
-    for mag in (1, 3):
-        q('dur_m%d_p0_n1' % mag, 'h_duration.c', {'MAG': mag, 'PREC': 0, 'NINT': 1, 'CHECK': 0}, 26, 120)
-    for mode in (0, 1):
-        for be in ('', 'kissat', 'cvc5'):
-            q('timeval_%d_%s' % (mode, be), 'h_timeval.c', {'MODE': mode}, 4, 120, backend=be)
-    q('ftime_s19', 'h_ftime.c', {'SLEN': 19, 'CHECK': 0}, 130, 300)
-    for be in ('', 'kissat', 'cvc5'):
-        q('ftime_val_%s' % be, 'h_ftime.c', {'SLEN': 19, 'CHECK': 1}, 130, 300, backend=be)
-    q('fsize', 'h_fsize.c', {}, 34, 300)
-    for n in (0, 1, 2, 3):
-        q('psize_len%d' % n, 'h_psize.c', {'LEN': n}, n + 3, 300)
+
+    # ---- format_duration -------------------------------------------------------------------------------------------------
+    for mag in (0, 1, 2, 3):
+        for p in (PRECS_ALL if thorough else PRECS_QUICK):
+            for nint in (1, 2):
+                pn = 'neg' if p < 0 else str(p)
+                defs = {'MAG': mag, 'PREC': p, 'NINT': nint, 'CHECK': 0}
+                if mag == 3:
+                    defs['SHAPE_TIED'] = 0  # three 64-bit divisions feed the value: shape left arbitrary for every value (stronger claim)
+                q('dur_m%d_p%s_n%d' % (mag, pn, nint), 'h_duration.c', defs, 26, 300,
+                  desc='format_duration, usecs %s, precision %s, seconds text with %d integer digit(s): no exception; formats per magnitude class; '
+                       'precision default; "0" pad iff one integer digit; result == integer text + seconds text' % (MAGN[mag], 'any negative' if p < 0 else p, nint),
+                  bounds='all usecs of the class%s' % ('' if mag == 3 else ' whose seconds value admits that shape'))
+    for mag in (1, 2, 3):
+        q('dur_fields_m%d' % mag, 'h_duration.c', {'MAG': mag, 'PREC': 1, 'NINT': 2, 'CHECK': 1}, 26, 600, backend='cvc5', cost=100,
+          desc='format_duration integer fields (usecs %s): hours < 24, minutes < 60, leading field >= 1, usecs - (days,hours,minutes) in [0, 60 s)' % MAGN[mag],
+          bounds='all usecs of the class')
+    for mag in (0, 1, 2, 3):
+        q('dur_value_m%d' % mag, 'h_duration.c', {'MAG': mag, 'PREC': 1, 'NINT': 2, 'CHECK': 2}, 26, 900, flags=['--cvc5', '--slice-formula'], cost=300,
+          desc='the double handed to "%%.*lf" is exactly (double)(usecs - whole fields) / 1000000 (usecs %s); SMT back end cvc5 (floating-point theory)' % MAGN[mag],
+          bounds='all usecs of the class')
+    # ---- timeval ------------------------------------------------------------------------------------------------------------
+    q('timeval_from_usecs', 'h_timeval.c', {'MODE': 0}, 4, 300, backend='cvc5',
+      desc='usecs_to_timeval(u): 0 <= tv_usec < 10^6, tv_sec*10^6 + tv_usec == u; timeval_to_usecs inverts it', bounds='all u < 2^63')
+    q('timeval_to_usecs', 'h_timeval.c', {'MODE': 1}, 4, 300, backend='cvc5',
+      desc='timeval_to_usecs(tv) == tv_sec*10^6 + tv_usec and usecs_to_timeval inverts it', bounds='0 <= tv_usec < 10^6, 0 <= tv_sec < 2^63/10^6 - 1')
+    # ---- format_time ----------------------------------------------------------------------------------------------------------
+    for sl in ((19,) if not thorough else (19, 20, 26)):
+        q('ftime_text_s%d' % sl, 'h_ftime.c', {'SLEN': sl, 'CHECK': 0}, 130, 300,
+          desc='format_time: gmtime_r/strftime/snprintf called once each with the right formats, tm and buffer arithmetic; result == date text + microsecond text',
+          bounds='all t; strftime text length %d' % sl)
+    q('ftime_values', 'h_ftime.c', {'SLEN': 19, 'CHECK': 1}, 130, 300, backend='cvc5',
+      desc='format_time: seconds handed to gmtime_r and microseconds handed to snprintf satisfy secs*10^6 + us == t, us < 10^6', bounds='all 2^64 t')
+    # ---- format_size / parse_size -------------------------------------------------------------------------------------------------
+    q('format_size_ladder', 'h_fsize.c', {}, 34, 600,
+      desc='format_size: unit == largest 1024^k <= size; byte count argument == size, included iff requested; value == (float)size / 1024^k exactly',
+      bounds='all 2^64 sizes x include_bytes')
+    for n in (range(0, 4) if not thorough else range(0, 6)):
+        q('parse_size_len%d' % n, 'h_psize.c', {'LEN': n}, n + 3, 600,
+          desc='parse_size on %d arbitrary bytes (no "."): == integer part * 1024^k (mod 2^64) for the unit letter after optional spaces; no overread' % n,
+          bounds='length == %d, all byte values except "."' % n)
+    if thorough:
+        for n in (1, 2, 3):
+            q('parse_size_dot_len%d' % n, 'h_psize.c', {'LEN': n, 'WITH_DOT': 1}, n + 3, 600,
+              desc='parse_size on %d arbitrary bytes where a "." may follow the integer part but no digit follows the "."' % n, bounds='length == %d' % n)
     return qs
